@@ -20,7 +20,11 @@ RULE = (
     "Store histories before the full transfer (destination not empty): the directory object alone "
     "transferred first (default shallow transfer), or a complete transfer from which 1-4 file objects "
     "were deleted; then transfer(shallow=False), reload, object-level checkout and index-level apply of "
-    "the stored directory entry. "
+    "the stored directory entry. Re-stage history (80% with a State): every source mtime set to T+0.1 s, "
+    "stage + transfer v1, rewrite 1-2 files (in place same length with mtime T+0.6 s in the same integer "
+    "second / T+2.1 s / atomic replace / resize; mtimes set by os.utime(ns=), no wall clock), stage v2 with "
+    "the same State into the same odb, transfer, object-level checkout and index-level round trip must "
+    "equal the CURRENT source. "
     "Oracle-only stream: trees with 2-4 files above the 1 MiB large-file threshold (thread-pool hashing). "
     "A case is non-trivial when the tree has >= 2 files in >= 2 directories or exercises an error."
 )
@@ -30,6 +34,9 @@ ASSUMPTIONS = [
     "os.walk visits every directory it lists (no symlinked directories, broken links or permission errors in the source)",
     "reflink is not offered by this file system; link types exercised: copy, hardlink, symlink",
     "the walk order of the source directory is observed with os.walk and handed to the model as an argument",
+    "staging in the model is cache-free (it hashes the bytes that are there now): C02 claims, and checks on runs with a "
+    "real State incl. re-staging after rewrites, that the hash-state cache is transparent; the cache's own soundness "
+    "theorem is C13's. A rewrite that restores the exact previous (inode, mtime, size) is outside the claim (by design)",
 ]
 
 IMPORTS = "From Coq Require Import NArith List.\nFrom DvcData Require Import Model.Listing Model.RoundTrip."
@@ -349,6 +356,108 @@ def hist_case(ctx, case, files, src, walk, items_hist):
     inp = cpair(cpair(cbytes(src), walk_term(walk)),
                 cpair("0" if kind == "shallow" else "1", clist([cbytes(g) for g in obs["gone"]])))
     items_hist.append((one, inp, exp))
+
+
+T0 = 1_700_000_000  # a fixed integer second: every mtime of the re-stage history is set explicitly
+
+
+def set_mtime(path, sec, nsec):
+    os.utime(path, ns=(sec * 10**9 + nsec, sec * 10**9 + nsec))
+
+
+def apply_edit(src, rel, data, variant):
+    """rewrite one source file; returns the new bytes. No wall-clock dependence: the new mtime is set."""
+    p = os.path.join(src, *rel.split("/"))
+    new = bytes(b ^ 0x5A for b in data)
+    if variant == "resize":
+        new = new + b"+"
+    if variant == "replace":           # atomic replace: a new inode, same length
+        tmp = p + ".tmp-c02"
+        with open(tmp, "wb") as f:
+            f.write(new)
+        os.replace(tmp, p)
+    else:                               # in place: same inode
+        with open(p, "r+b") as f:
+            f.write(new)
+            f.truncate()
+    if variant == "plus2":
+        set_mtime(p, T0 + 2, 100_000_000)
+    else:                               # later, inside the same integer second
+        set_mtime(p, T0, 600_000_000)
+    return new
+
+
+def restage_case(ctx, case, items_restage):
+    """stage v1 -> rewrite 1-2 files -> stage v2 into the same odb (same State) -> transfer ->
+    object-level checkout and index-level round trip must equal v2, the CURRENT source."""
+    from dvc_objects.fs.local import localfs
+
+    from dvc_data.hashfile import load
+    from dvc_data.hashfile.build import build
+    from dvc_data.hashfile.checkout import checkout
+    from dvc_data.hashfile.transfer import transfer
+
+    files = case_files(case)
+    base = ctx.fresh("restage")
+    src = os.path.join(base, "src")
+    make_source(src, files, case["dirs"])
+    for rel in files:
+        set_mtime(os.path.join(src, *rel.split("/")), T0, 100_000_000)
+    walk1 = observe_walk(src)
+    cfg = tuple(case["restage"]["config"])
+    env = Env(ctx, cfg)
+    one = case
+    try:
+        odb_path, odb = env.odb()
+        staging, _m1, obj1 = build(odb, src, localfs, "md5")
+        transfer(staging, odb, {obj1.hash_info}, shallow=False)
+        v2 = dict(files)
+        nonempty = sorted(r for r, b in files.items() if b)
+        for i, variant in case["restage"]["edits"]:
+            rel = nonempty[i % len(nonempty)]
+            if v2[rel] != files[rel]:
+                continue                 # already rewritten by an earlier edit of this case
+            v2[rel] = apply_edit(src, rel, files[rel], variant)
+            ctx.count("restage-edit:" + variant)
+        walk2 = observe_walk(src)
+        assert impl.walk_files(src) == v2
+        staging, meta, obj = build(odb, src, localfs, "md5")
+        res = transfer(staging, odb, {obj.hash_info}, shallow=False)
+        store = impl.walk_store(odb_path)
+        out = env.out()
+        checkout(out, localfs, load(odb, obj.hash_info), odb, state=env.state)
+        out_files, out_dirs = impl.walk_files(out), impl.walk_dirs(out)
+        iobs = run_idx(env, src)
+    except Exception as exc:  # noqa: BLE001
+        ctx.oracle_fail(f"C02:restage-exception:{type(exc).__name__}",
+                        f"re-staging round trip raised {type(exc).__name__}: {exc}", one)
+        ctx.case(case, True)
+        return
+    finally:
+        env.close()
+        impl.rm_rf(base)
+    ctx.count(f"restage:{'state' if cfg[2] else 'nostate'}")
+    built = {tuple(k): (h[1] if h else None) for k, _m, h in tree_entries(obj)}
+    if built != {tuple(r.split("/")): impl.md5hex(b) for r, b in v2.items()}:
+        ctx.oracle_fail("C02:restage-stale-listing",
+                        "re-staging after a rewrite: the listing is not {relpath: md5(current content)}", one)
+    if out_files != v2:
+        stale = sorted(r for r in v2 if out_files.get(r) == files.get(r) != v2[r])
+        ctx.oracle_fail("C02:restage-roundtrip",
+                        f"re-staging after a rewrite: the checkout differs from the current source (old bytes at {stale})", one)
+    if iobs["out_files"] != v2 or iobs["failed"]:
+        ctx.oracle_fail("C02:restage-idx-roundtrip",
+                        "re-staging after a rewrite: the index-level round trip differs from the current source", one)
+    md = meta.to_dict()
+    if md.get("nfiles") != len(v2) or md.get("size") != sum(len(b) for b in v2.values()):
+        ctx.oracle_fail("C02:restage-meta", f"re-staging: Meta {md} does not match the current source", one)
+    if res.failed:
+        ctx.count("restage:transfer-reported-failure")
+    exp = vL([vN(1), vB(obj1.hash_info.value), vB(obj.hash_info.value), vN(md.get("nfiles", 0)), vN(md.get("size", 0)),
+              v_keyhash([(k, h) for k, _m, h in tree_entries(obj)]), v_store(store),
+              vL([vN(1), vL([v_fsmap(out_files), v_dirs(out_dirs)])])])
+    items_restage.append((one, cpair(cbytes(src), cpair(walk_term(walk1), walk_term(walk2))), exp))
+    ctx.case(case, True)
 
 
 def run_idx(env, src):
@@ -705,16 +814,50 @@ def run(ctx):
         data = ctx.rng.choice(CONTENT_POOL) if ctx.rng.random() < 0.6 else ctx.rng.randbytes(ctx.rng.randint(1, 200))
         case = {"name": ctx.rng.choice(NAME_POOL), "data": data.hex(), "configs": pick_configs(ctx, 2 if quick else 12)}
         file_case(ctx, case, items_file)
+    items_restage = []
+    restage_cases = [
+        {"files": {"params.txt": b"rate=0.10\n".hex(), "d/x": "00010203", "d/y": "00010203", "e": ""}, "dirs": ["d", "g"],
+         "restage": {"config": ["local", "copy", True], "edits": [[2, "same_second"]]}},
+    ]
+    for i in range(ctx.n(8, 40)):
+        files, dirs = gen_tree(ctx.rng, 3, 8, 2)
+        if not any(files.values()):
+            continue
+        cfg = list(ctx.rng.choice([c for c in CONFIGS if c[2]] if ctx.rng.random() < 0.8 else CONFIGS))
+        edits = [[ctx.rng.randint(0, 30), ctx.rng.choice(["same_second", "same_second", "plus2", "replace", "resize"])]
+                 for _ in range(ctx.rng.randint(1, 2))]
+        restage_cases.append({"files": {r: b.hex() for r, b in files.items()}, "dirs": dirs,
+                              "restage": {"config": cfg, "edits": edits}})
+    for case in restage_cases:
+        restage_case(ctx, case, items_restage)
     ctx.obligation("oracle:roundtrip", not any(v.kind == "oracle" for v in ctx.violations),
                    f"{ctx.evaluations} generated trees/files judged by walk-equals-source, listing, Meta and store-name oracles")
-    ctx.correspond("obj", IMPORTS, "list N * walk", "fun i => obj_roundtrip (fst i) (snd i)", items_obj, shard=12)
-    ctx.correspond("idx", IMPORTS, "list N * walk", "fun i => idx_roundtrip_val (fst i) (snd i)", items_idx, shard=12)
-    ctx.correspond("incomplete", IMPORTS, "(list N * walk) * list (list N)",
-                   "fun i => checkout_without (fst (fst i)) (snd (fst i)) (snd i)", items_bad, shard=12)
-    ctx.correspond("history", IMPORTS, "(list N * walk) * (N * list (list N))",
-                   "fun i => obj_roundtrip_hist (fst (fst i)) (snd (fst i)) (fst (snd i)) (snd (snd i))",
-                   items_hist, shard=10)
-    ctx.correspond("file", IMPORTS, "list N", "file_roundtrip", items_file, shard=40)
+    jobs = [
+        ("obj", "list N * walk", "fun i => obj_roundtrip (fst i) (snd i)", items_obj, 12),
+        ("idx", "list N * walk", "fun i => idx_roundtrip_val (fst i) (snd i)", items_idx, 12),
+        ("incomplete", "(list N * walk) * list (list N)",
+         "fun i => checkout_without (fst (fst i)) (snd (fst i)) (snd i)", items_bad, 12),
+        ("history", "(list N * walk) * (N * list (list N))",
+         "fun i => obj_roundtrip_hist (fst (fst i)) (snd (fst i)) (fst (snd i)) (snd (snd i))", items_hist, 10),
+        ("restage", "list N * (walk * walk)",
+         "fun i => restage_val (fst i) (fst (snd i)) (snd (snd i))", items_restage, 10),
+        ("file", "list N", "file_roundtrip", items_file, 40),
+    ]
+    # the six evaluations are independent coqc runs over distinct case files: run them side by side,
+    # then put the recorded obligations back into the fixed order above
+    from concurrent.futures import ThreadPoolExecutor
+
+    n_before = len(ctx.obligations)
+    with ThreadPoolExecutor(max_workers=len(jobs)) as ex:
+        futs = [ex.submit(ctx.correspond, name, IMPORTS, ty, fn, items, shard=shard)
+                for name, ty, fn, items, shard in jobs]
+        for f in futs:
+            f.result()
+    order = {f"correspondence:{name}": k for k, (name, *_r) in enumerate(jobs)}
+    tail = sorted(ctx.obligations[n_before:], key=lambda o: order.get(o[0], len(order)))
+    ctx.obligations[n_before:] = tail
+    ctx.violations.sort(key=lambda v: (0 if v.kind == "oracle" else 1, order.get(v.signature, -1)
+                                       if v.kind != "oracle" else 0))
 
 
 def replay_case(ctx, case):
@@ -724,6 +867,8 @@ def replay_case(ctx, case):
         file_case(ctx, case, items)
     elif case.get("dvcignore"):
         ignore_case(ctx, case, [])
+    elif case.get("restage"):
+        restage_case(ctx, case, [])
     else:
         tree_case(ctx, case, [], [], [])
     problems = [(v.signature, v.what) for v in ctx.violations if v.kind == "oracle"]
